@@ -5,10 +5,13 @@ package c19gen
 // C19 driver, stream "watch" (part of TestVerifC19Misc, indices 400000..): the
 // whole hot-reload path end to end in a CHILD PROCESS — the real fsnotify
 // watcher (watcher.Module started by fx), a real http_message_signatures
-// strategy registered as its listener, the key store file rewritten in place
-// (truncate + write, so a half-written file is observed), OnChanged on the
-// watcher's bare goroutine.  The parent sees whether the process survived and
-// which state it serves afterwards.
+// strategy registered as its listener, the key store file REWRITTEN IN PLACE
+// several times in a row (bad, bad, good, …: truncate + write, so half-written
+// files are observed), OnChanged on the watcher's bare goroutines.  After every
+// rewrite the child waits until the watcher has delivered the event (a log line
+// of the watcher's logger: the "watcher alive" observable), lets it settle and
+// reports the state served.  The parent checks every step against the model and
+// that the run reaches its last step.
 
 import (
 	"bytes"
@@ -46,6 +49,13 @@ func (s *syncBuf) Write(p []byte) (int, error) {
 	return s.b.Write(p)
 }
 
+func (s *syncBuf) Len() int {
+	s.mu.Lock()
+	defer s.mu.Unlock()
+
+	return s.b.Len()
+}
+
 func (s *syncBuf) String() string {
 	s.mu.Lock()
 	defer s.mu.Unlock()
@@ -54,9 +64,8 @@ func (s *syncBuf) String() string {
 }
 
 type watchChildIn struct {
-	Initial []Part   `json:"initial"`
-	New     *Content `json:"new"`
-	Want    string   `json:"want"` // the log line that ends the wait: "reloaded" or "reload failed"
+	Initial []Part     `json:"initial"`
+	Steps   []*Content `json:"steps"`
 }
 
 type watchState struct {
@@ -64,10 +73,16 @@ type watchState struct {
 	Chain []string    `json:"chain"`
 }
 
+type watchStep struct {
+	Delivered bool       `json:"delivered"` // the watcher's goroutine logged something for this rewrite
+	Loaded    bool       `json:"loaded"`    // a synchronous OnChanged on the settled file logs "reloaded"
+	State     watchState `json:"state"`     // what the strategy served before that probe
+	After     watchState `json:"after"`     // … and after it
+}
+
 type watchChildOut struct {
-	Outcome string     `json:"outcome"` // reloaded kept timeout
-	Pre     watchState `json:"pre"`
-	Post    watchState `json:"post"`
+	Pre   watchState  `json:"pre"`
+	Steps []watchStep `json:"steps"`
 }
 
 func sigState(s *authstrategy.HTTPMessageSignatures) watchState {
@@ -122,66 +137,122 @@ func TestVerifC19WatchChild(t *testing.T) {
 		t.Fatal(err)
 	}
 
-	// rewrite in place: O_TRUNC, then the new bytes — the watcher sees the intermediate empty file too
-	if err := os.WriteFile(path, in.New.Bytes(), 0o600); err != nil {
-		t.Fatal(err)
+	report := func() {
+		b, _ := json.Marshal(out)
+		fmt.Println("C19-WATCH-RESULT " + string(b))
 	}
 
-	out.Outcome = "timeout"
+	for _, c := range in.Steps {
+		mark := logs.Len()
 
-	for deadline := time.Now().Add(60 * time.Second); time.Now().Before(deadline); time.Sleep(5 * time.Millisecond) {
-		if strings.Contains(logs.String(), "key store "+in.Want) {
-			out.Outcome = map[string]string{"reloaded": "reloaded", "reload failed": "kept"}[in.Want]
-
-			break
+		// rewrite in place: O_TRUNC, then the new bytes — the watcher sees the intermediate empty file too
+		if err := os.WriteFile(path, c.Bytes(), 0o600); err != nil {
+			t.Fatal(err)
 		}
+
+		step := watchStep{}
+
+		for deadline := time.Now().Add(30 * time.Second); time.Now().Before(deadline); time.Sleep(2 * time.Millisecond) {
+			if logs.Len() > mark {
+				step.Delivered = true
+
+				break
+			}
+		}
+
+		// let the goroutines of both write events finish: no new log output for 100 ms
+		for last, quiet := logs.Len(), 0; quiet < 50; time.Sleep(2 * time.Millisecond) {
+			if n := logs.Len(); n != last {
+				last, quiet = n, 0
+			} else {
+				quiet++
+			}
+		}
+
+		step.State = sigState(sig)
+
+		probe := &syncBuf{}
+		sig.OnChanged(zerolog.New(probe))
+		step.Loaded = strings.Contains(probe.String(), "key store reloaded")
+		step.After = sigState(sig)
+
+		out.Steps = append(out.Steps, step)
+		report() // progress line: the parent uses the last one
 	}
 
-	time.Sleep(50 * time.Millisecond) // let a second OnChanged goroutine (second write event) finish
-	out.Post = sigState(sig)
-
-	b, _ := json.Marshal(out)
-	fmt.Println("C19-WATCH-RESULT " + string(b))
+	report()
 }
 
 func runWatch(w *vf.Writer) {
-	cases := []ReloadCase{
-		{New: &Content{Mut: "none"}}, // rewritten to nothing
-		{New: &Content{Parts: []Part{{Fix: "ec256"}}, Mut: "trunc", Off: 20}},
-		{New: &Content{Parts: []Part{{Fix: "ec384", Kid: "new"}, {Fix: "rsa2048"}}, Mut: "none"}}, // a good rotation
-		{New: &Content{Parts: []Part{{Fix: "rsa2560"}}, Mut: "none"}},
+	root := vf.NewRand(vf.Seed() + 67)
+
+	good := [][]Part{
+		{{Fix: "ec384", Kid: "new"}, {Fix: "rsa2048"}},
+		{{Fix: "ec256"}, {Fix: "cert_ec256"}, {Fix: "cert_inter"}, {Fix: "cert_root"}},
+		{{Fix: "rsa3072", Kid: "r"}},
+	}
+	bad := []*Content{
+		{Mut: "none"},
+		{Parts: []Part{{Fix: "ec256"}}, Mut: "trunc", Off: 20},
+		{Parts: []Part{{Fix: "rsa2560"}}, Mut: "none"},
+		{Parts: []Part{{Fix: "ed25519"}}, Mut: "none"},
+		{Parts: []Part{{Fix: "cert_root"}}, Mut: "none"},
+		{Parts: []Part{{Fix: "ec256"}, {Fix: "ec256pub"}}, Mut: "none"},
+		{Parts: []Part{{Fix: "ec384"}, {Fix: "cert_ec384_nods"}, {Fix: "cert_root"}}, Mut: "none"},
 	}
 
-	for k, c := range cases {
-		i := 400000 + k
-		if !vf.Want(i) {
+	// two runs: bad, bad, good, bad, good — the fixed one and a seeded one
+	runs := [][]*Content{
+		{bad[0], bad[1], {Parts: good[0], Mut: "none"}, bad[2], {Parts: good[2], Mut: "none"}},
+	}
+
+	var seeded []*Content
+
+	for k := 0; k < 5; k++ {
+		if k == 2 || k == 4 {
+			seeded = append(seeded, &Content{Parts: vf.Pick(root, good), Mut: "none"})
+		} else if root.Chance(70) {
+			seeded = append(seeded, vf.Pick(root, bad))
+		} else {
+			b := vf.Pick(root, good)
+			seeded = append(seeded, &Content{Parts: b, Mut: "trunc", Off: root.Intn(len(Compose(b)))})
+		}
+	}
+
+	runs = append(runs, seeded)
+	idx := 400000
+
+	for ri, steps := range runs {
+		first := idx
+		idx += len(steps)
+
+		wanted := false
+		for k := range steps {
+			wanted = wanted || vf.Want(first+k)
+		}
+
+		if !wanted {
 			continue
 		}
 
-		c.Comp = "httpsig"
-		c.Initial = []Part{{Fix: "ec256"}, {Fix: "cert_ec256"}, {Fix: "cert_inter"}, {Fix: "cert_root"}}
-
+		initial := []Part{{Fix: "ec256"}, {Fix: "cert_ec256"}, {Fix: "cert_inter"}, {Fix: "cert_root"}}
 		in := NewInterner()
-		Analyse(in, Compose(c.Initial), Password)
-		c.Oracle = Analyse(in, c.New.Bytes(), Password)
+		Analyse(in, Compose(initial), Password)
 
-		want := "reload failed"
-		if k == 2 {
-			want = "reloaded"
-		}
-
-		raw, _ := json.Marshal(watchChildIn{Initial: c.Initial, New: c.New, Want: want})
+		raw, _ := json.Marshal(watchChildIn{Initial: initial, Steps: steps})
 		cmd := exec.Command(os.Args[0], "-test.run", "^TestVerifC19WatchChild$", "-test.v")
 		cmd.Env = append(os.Environ(), "C19_WATCH_CASE="+string(raw), "VERIF_OUT=/dev/null")
 		outb, err := cmd.CombinedOutput()
+		text := string(outb)
 
 		var res watchChildOut
 
-		got := false
-
-		for _, line := range strings.Split(string(outb), "\n") {
+		for _, line := range strings.Split(text, "\n") {
 			if strings.HasPrefix(line, "C19-WATCH-RESULT ") {
-				got = json.Unmarshal([]byte(strings.TrimPrefix(line, "C19-WATCH-RESULT ")), &res) == nil
+				var r watchChildOut
+				if json.Unmarshal([]byte(strings.TrimPrefix(line, "C19-WATCH-RESULT ")), &r) == nil {
+					res = r
+				}
 			}
 		}
 
@@ -198,55 +269,64 @@ func runWatch(w *vf.Writer) {
 			return j
 		}
 
-		o := reloadObs{}
+		pre := conv(res.Pre)
 
-		var outCoq string
+		for k, c := range steps {
+			i := first + k
+			rc := ReloadCase{Comp: "httpsig", Initial: initial, New: c, Oracle: Analyse(in, c.Bytes(), Password)}
+			o := reloadObs{Pre: pre}
 
-		switch {
-		case got && res.Outcome == "reloaded":
-			o.Outcome, o.Pre, o.Post = "reloaded", conv(res.Pre), conv(res.Post)
-			outCoq = "(Reloaded " + o.Post.Coq() + ")"
-		case got && res.Outcome == "kept":
-			o.Outcome, o.Pre, o.Post = "kept", conv(res.Pre), conv(res.Post)
-			outCoq = "(Kept " + o.Post.Coq() + ")"
-		default:
-			// the child died (or never logged): which panic, from its output
-			site := "SOther"
-			text := string(outb)
+			var outCoq string
 
 			switch {
-			case strings.Contains(text, "index out of range [0] with length 0"):
-				site = "SEntries0"
-			case strings.Contains(text, "unsupported") && strings.Contains(text, "key size") && strings.Contains(text, "authstrategy.get"):
-				site = "SSigKeySize"
-			case strings.Contains(text, "unsupported") && strings.Contains(text, "key size"):
-				site = "SKeySize"
-			case strings.Contains(text, "stack overflow"):
-				site = "SChainLoop"
+			case k < len(res.Steps) && res.Steps[k].Delivered && res.Steps[k].Loaded &&
+				fmt.Sprint(res.Steps[k].State) == fmt.Sprint(res.Steps[k].After):
+				o.Outcome, o.Post = "reloaded", conv(res.Steps[k].State)
+				outCoq = "(Reloaded " + o.Post.Coq() + ")"
+			case k < len(res.Steps) && res.Steps[k].Delivered:
+				o.Outcome, o.Post = "kept", conv(res.Steps[k].State)
+				outCoq = "(Kept " + o.Post.Coq() + ")"
+			case k < len(res.Steps):
+				// the child lives but the watcher did not deliver the rewrite: the background watcher has stopped
+				o.Outcome = "exit:SOther"
+				o.Msg = "watcher did not deliver the event within 30 s (stopped?)"
+				outCoq = "(ProcessExit SOther)"
+			default:
+				// the child died during this step (or an earlier one): which panic, from its output
+				site := "SOther"
+
+				switch {
+				case strings.Contains(text, "index out of range [0] with length 0"):
+					site = "SEntries0"
+				case strings.Contains(text, "unsupported") && strings.Contains(text, "key size") && strings.Contains(text, "authstrategy.get"):
+					site = "SSigKeySize"
+				case strings.Contains(text, "unsupported") && strings.Contains(text, "key size"):
+					site = "SKeySize"
+				case strings.Contains(text, "stack overflow"):
+					site = "SChainLoop"
+				}
+
+				o.Outcome = "exit:" + site
+				o.Msg = fmt.Sprint("child: ", err, " ", text[:min(len(text), 400)])
+				outCoq = "(ProcessExit " + site + ")"
 			}
 
-			o.Outcome = "exit:" + site
-			o.Msg = fmt.Sprint("child: ", err, " ", text[:min(len(text), 400)])
-			o.Pre = conv(res.Pre)
-			outCoq = "(ProcessExit " + site + ")"
-
-			if got { // alive but the expected log line never came
-				o.Outcome = "timeout"
+			if vf.Want(i) {
+				w.Put(vf.Obs{
+					I: i, Stream: "watch", In: rc, Out: o,
+					Coq: "(ME " + vf.CoqApp("rc", "HttpSig", "false", vf.CoqStr(""), "(Some "+rc.Oracle.CoqBlocks()+")",
+						vf.CoqBool(rc.Oracle.Trailing), rc.Oracle.CoqChainOK(), rc.Oracle.CoqUsable(), pre.Coq(), outCoq) + ")",
+					Nontrivial: true,
+					Tags:       []string{"watch-e2e", fmt.Sprintf("watch-run=%d", ri), fmt.Sprintf("watch-step=%d", k), "out=" + strings.SplitN(o.Outcome, ":", 2)[0]},
+				})
 			}
-		}
 
-		// the pre-state is what the child reported after its initial load; if it died, what the model predicts for it
-		pre := o.Pre
-		if !got {
-			pre = stateJSON{}
-		}
+			if strings.HasPrefix(o.Outcome, "exit") {
+				break // nothing is observed after the process / watcher is gone
+			}
 
-		w.Put(vf.Obs{
-			I: i, Stream: "watch", In: c, Out: o,
-			Coq: "(ME " + vf.CoqApp("rc", "HttpSig", "false", vf.CoqStr(""), "(Some "+c.Oracle.CoqBlocks()+")",
-				c.Oracle.CoqChainOK(), c.Oracle.CoqUsable(), pre.Coq(), outCoq) + ")",
-			Nontrivial: true,
-			Tags:       []string{"watch-e2e", "out=" + strings.SplitN(o.Outcome, ":", 2)[0]},
-		})
+			// the next step starts from the state after the probe
+			pre = conv(res.Steps[k].After)
+		}
 	}
 }
